@@ -959,6 +959,7 @@ func c15RunNodeAlloc(w *simrt.World, tier string) {
 	// --- oracle: a slot has at most one holder at a time
 	sort.SliceStable(holds, func(i, j int) bool { return holds[i].retStamp < holds[j].retStamp })
 	overlapSeen, contended := false, false
+	party := map[*c15hold]string{} // hold -> class of the first duplicate it took part in
 	for j, h2 := range holds {
 		if h2.foreign {
 			continue
@@ -988,12 +989,23 @@ func c15RunNodeAlloc(w *simrt.World, tier string) {
 			}
 			overlapSeen = true
 			cls := "duplicate:" + flavour
+			note := ""
 			if outage && h1.nodeIdx == outNode && outLen > 60*time.Second && outFrom > 0 && outFrom < h2.retTime {
 				cls = "duplicate-after-lease-lapse:" + flavour
 			}
+			// Root cause attribution: once two holders share a slot, each one's Release (an unconditional
+			// Delete) and heartbeat (an unconditional Set) act on the other's key, so a later overlap that
+			// involves one of those holders is a consequence of the first duplicate on that slot and is
+			// reported under that duplicate's class (the violation itself is unchanged).
+			if root, ok := party[h1]; ok {
+				cls, note = root, " [consequence: "+h1.holder+" already shared this slot in an earlier duplicate; the other holder's Release freed the key]"
+			} else if root, ok := party[h2]; ok {
+				cls, note = root, " [consequence: "+h2.holder+" already shared this slot in an earlier duplicate]"
+			}
+			party[h1], party[h2] = cls, cls
 			w.Violationf("C15:node-alloc:"+cls,
-				"%s holds %s (allocated stamps %d-%d, t=%v, release stamp %d) and %s was given the same slot (stamps %d-%d, t=%v); crash=%v@%d outage=%v node%d [%v..%v]",
-				h1.holder, h1.id, h1.callStamp, h1.retStamp, h1.retTime, h1.endStamp, h2.holder, h2.callStamp, h2.retStamp, h2.retTime, crash, crashStamp, outage, outNode, outFrom, outTo)
+				"%s holds %s (allocated stamps %d-%d, t=%v, release stamp %d) and %s was given the same slot (stamps %d-%d, t=%v); crash=%v@%d outage=%v node%d [%v..%v]%s",
+				h1.holder, h1.id, h1.callStamp, h1.retStamp, h1.retTime, h1.endStamp, h2.holder, h2.callStamp, h2.retStamp, h2.retTime, crash, crashStamp, outage, outNode, outFrom, outTo, note)
 		}
 	}
 	// concurrent allocations?
